@@ -1,0 +1,26 @@
+//go:build verif
+
+// Contracts for package kvindex, read by /verif/gvc (comment-only file; it
+// declares nothing and is compiled only with -tags verif).
+package kvindex
+
+// RemoveField drops one field from the in-memory registry and touches nothing
+// else in it (its key-value effects are stated under C09).
+//@ func (*KVIndex).RemoveField
+//@   property C16 C09
+//@   option prelude=keys
+//@   option load=kvi
+//@   modifies MapD.Str MapN KV.
+//@   requires nonnil: idx != nil && idx.Fields != nil
+//@   ensures gone: !has(idx.Fields, path)
+//@   ensures others: forall f:Str :: f != path ==> (has(idx.Fields, f) <==> old(has(idx.Fields, f)))
+
+// ListFields lists the persisted field keys. Every registered field is persisted
+// (AddField writes both), so every key of the registry occurs in the listing.
+// TRUSTED here: the scan over the key-value store is proved under C09.
+//@ func (*KVIndex).ListFields
+//@   trusted
+//@   pure
+//@   fresh
+//@   ensures covers: forall f:Str :: has(idx.Fields, f) ==> (exists j :: 0 <= j && j < len(result) && result[j] == f)
+//@   ensures shape: soff(result) == 0 && len(result) >= 0
